@@ -46,7 +46,7 @@ def real_vec(draw, nmin=2, nmax=64, nonzero=True):
 @st.composite
 def cscale(draw):
     """complex factor with modulus 1e-6..1e6 (log-uniform) and any phase."""
-    lg = draw(st.floats(-6, 6))
+    lg = draw(st.one_of(st.floats(-6, 6), st.floats(-6, 6), st.sampled_from([-30.0, -12.0, 12.0, 30.0])))  # "any non-zero complex number": now and then far outside 1e-6..1e6
     ph = draw(st.one_of(st.floats(-math.pi, math.pi), st.sampled_from([0.0, math.pi, PI2, -PI2, math.pi / 4])))
     return [10.0**lg, ph]
 
